@@ -714,7 +714,9 @@ func runRelay(w *worker, sc *relayScenario, cmds []string, leafHint bool) (s *re
 			return s, full, nil, false
 		}
 	}
-	leaf = leafHint
+	// replay: the recorded run ended in a state where the script had nothing left to grant; on
+	// the tree at hand that is only so if no copier has a grantable operation parked
+	leaf = leafHint && len(s.enabled(&relayScenario{})) == 0
 	if sc != nil {
 		for {
 			en := s.enabled(sc)
